@@ -6,7 +6,12 @@ package merkleroot
 
 import (
 	"context"
+	"encoding/hex"
+	"sort"
 	"testing"
+	"time"
+
+	"github.com/smartcontractkit/chainlink-common/pkg/hashutil"
 
 	"github.com/smartcontractkit/libocr/commontypes"
 	"github.com/smartcontractkit/libocr/offchainreporting2plus/ocr3types"
@@ -18,6 +23,7 @@ import (
 	"github.com/smartcontractkit/chainlink-ccip/internal/mocks"
 	"github.com/smartcontractkit/chainlink-ccip/internal/plugincommon"
 	"github.com/smartcontractkit/chainlink-ccip/internal/plugintypes"
+	"github.com/smartcontractkit/chainlink-ccip/pkg/consts"
 	readerpkg "github.com/smartcontractkit/chainlink-ccip/pkg/reader"
 	cciptypes "github.com/smartcontractkit/chainlink-ccip/pkg/types/ccipocr3"
 	"github.com/smartcontractkit/chainlink-ccip/pluginconfig"
@@ -68,19 +74,34 @@ func (c vC05Controller) InitConnection(context.Context, cciptypes.Bytes32, ccipt
 	return nil
 }
 
+// observer fake of the obs part: every call returns a fixed, non-empty, recognisable value, so that the observation
+// returned by Processor.Observation shows which calls were made
 type vC05Observer struct{}
 
-func (vC05Observer) ObserveOffRampNextSeqNums(context.Context) []plugintypes.SeqNumChain { return nil }
+var vC05ObsRoot = cciptypes.MerkleRootChain{ChainSel: 1, OnRampAddress: []byte{1, 0xAD}, SeqNumsRange: cciptypes.NewSeqNumRange(10, 12), MerkleRoot: cciptypes.Bytes32{0xAA, 9}}
+var vC05ObsCfg = rmntypes.RemoteConfig{ContractAddress: []byte{0xC0}, ConfigDigest: cciptypes.Bytes32{0xD1}, F: 1, ConfigVersion: 1,
+	Signers: []rmntypes.RemoteSignerInfo{{OnchainPublicKey: []byte{1}, NodeIndex: 0}, {OnchainPublicKey: []byte{2}, NodeIndex: 1}}, RmnReportVersion: cciptypes.Bytes32{0x52}}
+
+func (vC05Observer) ObserveOffRampNextSeqNums(context.Context) []plugintypes.SeqNumChain {
+	return []plugintypes.SeqNumChain{{ChainSel: 1, SeqNum: 10}}
+}
 func (vC05Observer) ObserveLatestOnRampSeqNums(context.Context, cciptypes.ChainSelector) []plugintypes.SeqNumChain {
-	return nil
+	return []plugintypes.SeqNumChain{{ChainSel: 1, SeqNum: 40}}
 }
 func (vC05Observer) ObserveMerkleRoots(context.Context, []plugintypes.ChainRange) []cciptypes.MerkleRootChain {
-	return nil
+	return []cciptypes.MerkleRootChain{vC05ObsRoot}
 }
 func (vC05Observer) ObserveRMNRemoteCfg(context.Context, cciptypes.ChainSelector) rmntypes.RemoteConfig {
-	return rmntypes.RemoteConfig{}
+	return vC05ObsCfg
 }
-func (vC05Observer) ObserveFChain() map[cciptypes.ChainSelector]int { return nil }
+func (vC05Observer) ObserveFChain() map[cciptypes.ChainSelector]int {
+	return map[cciptypes.ChainSelector]int{1: 1}
+}
+
+func vC05ObsTerm(tm vC03Terms, ob Observation) string {
+	return cApp("mkObs", cMap(ob.MerkleRoots, tm.root), tm.seqChains(ob.OnRampMaxSeqNums), tm.seqChains(ob.OffRampNextSeqNums),
+		tm.cfg(ob.RMNRemoteConfig), cBool(len(ob.FChain) > 0))
+}
 
 // a bundle around the given roots; class decides how it deviates
 func vC05Bundle(r *vRand, roots []cciptypes.MerkleRootChain, nsigs int) (*rmn.ReportSignatures, string) {
@@ -228,13 +249,15 @@ func TestVerif_C05_obs(t *testing.T) {
 			proc.rmnControllerCfgDigest = cciptypes.Bytes32{0xFE, 0xFE} // never a generated digest
 		}
 		code := 0
+		var got Observation
 		func() {
 			defer func() {
 				if rec := recover(); rec != nil {
 					code = 2
 				}
 			}()
-			_, err := proc.Observation(ctx, prev, q)
+			var err error
+			got, err = proc.Observation(ctx, prev, q) // the value is kept also when err != nil
 			if err != nil {
 				code = 1
 			}
@@ -258,7 +281,8 @@ func TestVerif_C05_obs(t *testing.T) {
 		if offErr {
 			off = cNone()
 		}
-		in := cTup(cBool(enabled), cZ(ty), cBool(cfg.IsEmpty()), detail, cN(uint64(dest)), cNi(init), cBool(known), off, tm.query(q), cBool(crypto.ok))
+		world := cApp("mkWorld", cList([]string{tm.root(vC05ObsRoot)}), "[(1%N, 40%N)]", "[(1%N, 10%N)]", tm.cfg(vC05ObsCfg), "true")
+		in := cTup(cBool(enabled), cZ(ty), cBool(cfg.IsEmpty()), detail, cN(uint64(dest)), cNi(init), cBool(known), off, tm.query(q), cBool(crypto.ok), world)
 		cls := qcls
 		if q.RetryRMNSignatures {
 			cls = "retry+" + cls
@@ -269,7 +293,7 @@ func TestVerif_C05_obs(t *testing.T) {
 		if !enabled {
 			cls = "disabled/" + cls
 		}
-		sink.Emit("C05_obs", cls, enabled && ty == 1, cPair(in, cPair(cNi(code), call)),
+		sink.Emit("C05_obs", cls, enabled && ty == 1, cPair(in, cTup(cNi(code), call, vC05ObsTerm(tm, got))),
 			map[string]any{"enabled": enabled, "prevType": ty, "cfgEmpty": cfg.IsEmpty(), "init": init, "known": known, "offErr": offErr, "cryptoOK": crypto.ok, "query": qcls, "retry": q.RetryRMNSignatures})
 	}
 }
@@ -349,5 +373,411 @@ func TestVerif_C05_build(t *testing.T) {
 		}
 		sink.Emit("C05_build", qcls, len(agreed) > 0 && q.RMNSignatures != nil, cPair(in, outS),
 			map[string]any{"agreed": len(agreed), "bundle": qcls, "sigs": nsig, "retry": q.RetryRMNSignatures, "roots_out": len(out.RootsToReport), "sigs_out": len(out.RMNReportSignatures), "type_out": int(out.OutcomeType)})
+	}
+}
+
+// ---------------------------------------------------------------------------------------------------------------
+// part chain: Processor.Query -> Observation (4 oracles) -> ValidateObservation -> Outcome over histories, processors
+// built with the real NewProcessor (real observerImpl over a scripted honest reader), RMN on or off
+// ---------------------------------------------------------------------------------------------------------------
+
+type vC05ChainCtrl struct {
+	mode   string // "sigs", "timeout", "err"
+	bundle *rmn.ReportSignatures
+	calls  int
+	reqs   []*rmnpb.FixedDestLaneUpdateRequest
+	dest   *rmnpb.LaneDest
+}
+
+func (c *vC05ChainCtrl) InitConnection(context.Context, cciptypes.Bytes32, cciptypes.Bytes32, []ragep2ptypes.PeerID, []rmntypes.HomeNodeInfo) error {
+	return nil
+}
+func (c *vC05ChainCtrl) Close() error { return nil }
+func (c *vC05ChainCtrl) ComputeReportSignatures(_ context.Context, dest *rmnpb.LaneDest, reqs []*rmnpb.FixedDestLaneUpdateRequest, _ rmntypes.RemoteConfig) (*rmn.ReportSignatures, error) {
+	c.calls++
+	c.reqs, c.dest = reqs, dest
+	switch c.mode {
+	case "timeout":
+		return nil, rmn.ErrTimeout
+	case "err":
+		return nil, vErr
+	}
+	return c.bundle, nil
+}
+
+type vC05IdHasher struct{}
+
+func (vC05IdHasher) Hash(_ context.Context, m cciptypes.Message) (cciptypes.Bytes32, error) {
+	return m.Header.MessageID, nil
+}
+
+func vC05ChainMsg(k cciptypes.ChainSelector, seq uint64) cciptypes.Message {
+	var id cciptypes.Bytes32
+	id[0], id[1] = 0x4D, byte(k)
+	for j := 0; j < 8; j++ {
+		id[31-j] = byte(seq >> (8 * j))
+	}
+	return cciptypes.Message{Header: cciptypes.RampMessageHeader{MessageID: id, SequenceNumber: cciptypes.SeqNum(seq),
+		SourceChainSelector: k, DestChainSelector: vC05KnownDest}}
+}
+
+func TestVerif_C05_chain(t *testing.T) {
+	ctx := context.Background()
+	r := vNewRand(vSeed() + 505)
+	nHist := vEnvInt("VERIF_N", 120)
+	sink := vOpenSink("C05_chain")
+	defer sink.Close()
+	keccak := hashutil.NewKeccak()
+	sources := []cciptypes.ChainSelector{1, 2, 3}
+	const dbMax = 400
+	for hidx := 0; hidx < nHist; hidx++ {
+		enabled := !r.Chance(1, 5)
+		max := vPick(r, []uint64{1, 2, 3})
+		tree := vPick(r, []uint64{2, 4, 9})
+		// ---- the DON: 4 oracles, F = 1, every oracle reads every chain
+		hc := vNewHomeChain()
+		idToPeer := map[commontypes.OracleID]ragep2ptypes.PeerID{}
+		var peers []ragep2ptypes.PeerID
+		for o := 0; o < 4; o++ {
+			idToPeer[commontypes.OracleID(o)] = vPeer(o)
+			peers = append(peers, vPeer(o))
+		}
+		hc.SetChain(vC05KnownDest, 1, peers)
+		for _, k := range sources {
+			hc.SetChain(k, 1, peers)
+		}
+		// ---- the world the scripted reader shows
+		off := map[cciptypes.ChainSelector]uint64{}
+		on := map[cciptypes.ChainSelector]uint64{}
+		for _, k := range sources {
+			off[k] = uint64(r.Range(1, 20))
+			on[k] = off[k] + uint64(r.Range(0, 6)) - 1
+		}
+		// a well-formed RMN remote config (ValidateObservation rejects malformed ones; that is C11/C12) or none
+		wcfg := rmntypes.RemoteConfig{}
+		if !r.Chance(1, 6) {
+			wcfg = rmntypes.RemoteConfig{
+				ContractAddress:  []byte{0xC0, byte(r.Intn(2))},
+				ConfigDigest:     vC03Bytes32(r, 0xD1),
+				Signers:          []rmntypes.RemoteSignerInfo{{OnchainPublicKey: []byte{1}, NodeIndex: 0}, {OnchainPublicKey: []byte{2}, NodeIndex: 1}, {OnchainPublicKey: []byte{3}, NodeIndex: 2}},
+				F:                uint64(r.Intn(3)),
+				ConfigVersion:    1,
+				RmnReportVersion: vC03Bytes32(r, 0x52),
+			}
+		}
+		offAddr := []byte{0x0F, 0x01}
+		offErr := r.Chance(1, 25)
+		onAddrErr := map[cciptypes.ChainSelector]bool{}
+		if r.Chance(1, 20) {
+			onAddrErr[vPick(r, sources)] = true
+		}
+		onAddr := func(k cciptypes.ChainSelector) []byte { return []byte{byte(k), 0xAD} }
+		rd := &vCCIPReader{
+			MsgsFn: func(chain cciptypes.ChainSelector, rg cciptypes.SeqNumRange) ([]cciptypes.Message, error) {
+				ms := []cciptypes.Message{}
+				for q := uint64(rg.Start()); q <= uint64(rg.End()) && q <= dbMax; q++ {
+					if q <= on[chain] { // the reader holds what was sent so far
+						ms = append(ms, vC05ChainMsg(chain, q))
+					}
+				}
+				return ms, nil
+			},
+			AddrFn: func(name string, chain cciptypes.ChainSelector) ([]byte, error) {
+				if name == consts.ContractNameOffRamp {
+					if offErr {
+						return nil, vErr
+					}
+					return offAddr, nil
+				}
+				if onAddrErr[chain] {
+					return nil, vErr
+				}
+				return onAddr(chain), nil
+			},
+			NextSeqNumFn: func(chains []cciptypes.ChainSelector) ([]cciptypes.SeqNum, error) {
+				out := make([]cciptypes.SeqNum, len(chains))
+				for i, c := range chains {
+					out[i] = cciptypes.SeqNum(off[c])
+				}
+				return out, nil
+			},
+			ExpectedNextFn: func(src, dst cciptypes.ChainSelector) (cciptypes.SeqNum, error) {
+				return cciptypes.SeqNum(on[src] + 1), nil
+			},
+			RMNRemoteFn: func(cciptypes.ChainSelector) (rmntypes.RemoteConfig, error) { return wcfg, nil },
+		}
+		ctrl := &vC05ChainCtrl{}
+		cryptos := make([]*vC05Crypto, 4)
+		procs := make([]*Processor, 4)
+		for o := 0; o < 4; o++ {
+			cryptos[o] = &vC05Crypto{}
+			oid := commontypes.OracleID(o)
+			procs[o] = NewProcessor(oid, idToPeer, mocks.NullLogger,
+				pluginconfig.CommitOffchainConfig{RMNEnabled: enabled, MaxMerkleTreeSize: tree, MaxReportTransmissionCheckAttempts: uint(max), RMNSignaturesTimeout: time.Second},
+				vC05KnownDest, hc, rd, vC05IdHasher{},
+				ocr3types.ReportingPluginConfig{F: 1, N: 4, OracleID: oid},
+				plugincommon.NewChainSupport(mocks.NullLogger, hc, idToPeer, oid, vC05KnownDest),
+				ctrl, cryptos[o], vC05Home{})
+		}
+		prev := Outcome{}
+		rounds := r.Range(3, 10)
+		for rd0 := 0; rd0 < rounds; rd0++ {
+			tm := vC03Terms{in: vNewIntern(), dest: vC05KnownDest}
+			hid := func(b [32]byte) uint64 { return tm.in.Id("h:" + hex.EncodeToString(b[:])) }
+			zeroID := hid(keccak.ZeroHash())
+			prev = vC03Wire(prev)
+			st := prev.NextState()
+			// the world moves: new messages arrive
+			for _, k := range sources {
+				if on[k]+3 < dbMax {
+					on[k] += uint64(r.Intn(3))
+				}
+			}
+			// true roots of the previous outcome's ranges (a fifth, unjudged observer instance computes them)
+			trueRoots := procs[3].observer.ObserveMerkleRoots(ctx, prev.RangesSelectedForReport)
+			sort.Slice(trueRoots, func(a, b int) bool { return trueRoots[a].ChainSel < trueRoots[b].ChainSel })
+			mkBundle := func(kind string) *rmn.ReportSignatures {
+				rs := &rmn.ReportSignatures{Signatures: []*rmnpb.EcdsaSignature{vC03Sig(1), vC03Sig(2), vC03Sig(3)}}
+				for _, rt := range trueRoots {
+					x := rt
+					if kind == "other" {
+						x.MerkleRoot[7] ^= 0x5A
+					}
+					rs.LaneUpdates = append(rs.LaneUpdates, vC03Lane(x))
+				}
+				if kind == "other" && len(trueRoots) == 0 {
+					rs.LaneUpdates = append(rs.LaneUpdates, vC03Lane(vC03Root(r, 1, 1, 2)))
+				}
+				return rs
+			}
+			ans := r.Chance(2, 3)
+			for o := range cryptos {
+				*cryptos[o] = vC05Crypto{ok: ans}
+			}
+			// ---- leader
+			var q Query
+			var leadTerm, leadOut, lcls string
+			leaderFailed := false
+			if r.Bool() {
+				ctrl.mode = vPick(r, []string{"sigs", "sigs", "sigs-other", "timeout", "err"})
+				ctrl.calls, ctrl.reqs = 0, nil
+				ctrlTerm := "CtrlErr"
+				switch ctrl.mode {
+				case "sigs":
+					ctrl.bundle = mkBundle("matching")
+				case "sigs-other":
+					ctrl.bundle = mkBundle("other")
+					ctrl.mode = "sigs"
+				case "timeout":
+					ctrlTerm = "CtrlTimeout"
+				}
+				if ctrl.mode == "sigs" {
+					ctrlTerm = cApp("CtrlSigs", tm.query(Query{RMNSignatures: ctrl.bundle})[len("(mkQuery false (Some "):])
+					ctrlTerm = ctrlTerm[:len(ctrlTerm)-2] // strip the two closing parentheses of mkQuery / Some
+				}
+				lcls = "honest-" + ctrl.mode
+				leadTerm = cApp("LHonest", ctrlTerm)
+				code := 0
+				func() {
+					defer func() {
+						if rec := recover(); rec != nil {
+							code = 2
+						}
+					}()
+					var err error
+					q, err = procs[rd0%4].Query(ctx, prev)
+					if err != nil {
+						code = 1
+					}
+				}()
+				reqT := cNone()
+				if ctrl.calls > 0 {
+					reqT = cSome(cMap(ctrl.reqs, func(u *rmnpb.FixedDestLaneUpdateRequest) string {
+						return cTup(cN(u.LaneSource.SourceChainSelector), tm.addr(u.LaneSource.OnrampAddress), cN(u.ClosedInterval.MinMsgNr), cN(u.ClosedInterval.MaxMsgNr))
+					}))
+				}
+				qT := cNone()
+				if code == 0 {
+					qT = cSome(tm.query(q))
+				} else {
+					leaderFailed = true
+				}
+				leadOut = cTup(cNi(code), qT, reqT)
+			} else {
+				q = Query{RetryRMNSignatures: r.Bool()}
+				kind := vPick(r, []string{"absent", "matching", "matching", "other"})
+				if kind != "absent" {
+					q.RMNSignatures = mkBundle(kind)
+				}
+				lcls = "byz-" + kind
+				if kind == "matching" && !ans {
+					lcls = "byz-forged"
+				}
+				if q.RetryRMNSignatures {
+					lcls += "+retry"
+				}
+				leadTerm = cApp("LByz", tm.query(q))
+				leadOut = cTup(cNi(0), cSome(tm.query(q)), cNone())
+			}
+			// ---- oracles
+			restOut := cNone()
+			var out Outcome
+			haveOut := false
+			var co consensusObservation
+			var cerr error = vErr
+			if !leaderFailed {
+				obsT := make([]string, 4)
+				codes := make([]int, 4)
+				var aos []plugincommon.AttributedObservation[Observation]
+				var validT []string
+				var validAos []plugincommon.AttributedObservation[Observation]
+				for o := 0; o < 4; o++ {
+					var ob Observation
+					func() {
+						defer func() {
+							if rec := recover(); rec != nil {
+								codes[o] = 2
+							}
+						}()
+						var err error
+						ob, err = procs[o].Observation(ctx, prev, q)
+						if err != nil {
+							codes[o] = 1
+						}
+					}()
+					sort.Slice(ob.MerkleRoots, func(a, b int) bool { return ob.MerkleRoots[a].ChainSel < ob.MerkleRoots[b].ChainSel })
+					sort.Slice(ob.OnRampMaxSeqNums, func(a, b int) bool { return ob.OnRampMaxSeqNums[a].ChainSel < ob.OnRampMaxSeqNums[b].ChainSel })
+					sort.Slice(ob.OffRampNextSeqNums, func(a, b int) bool { return ob.OffRampNextSeqNums[a].ChainSel < ob.OffRampNextSeqNums[b].ChainSel })
+					obsT[o] = cApp("mkObs", cMap(ob.MerkleRoots, tm.root), tm.seqChains(ob.OnRampMaxSeqNums), tm.seqChains(ob.OffRampNextSeqNums),
+						tm.cfg(ob.RMNRemoteConfig), cBool(len(ob.FChain) > 0))
+					aos = append(aos, plugincommon.AttributedObservation[Observation]{OracleID: commontypes.OracleID(o), Observation: ob})
+				}
+				alike := true
+				for o := 1; o < 4; o++ {
+					if obsT[o] != obsT[0] || codes[o] != codes[0] || cryptos[o].calls != cryptos[0].calls {
+						alike = false
+					}
+				}
+				for o := 0; o < 4; o++ {
+					ok := false
+					func() {
+						defer func() { _ = recover() }()
+						ok = procs[0].ValidateObservation(prev, q, aos[o]) == nil
+					}()
+					validT = append(validT, cBool(ok))
+					if ok {
+						validAos = append(validAos, aos[o])
+					}
+				}
+				call := cNone()
+				if c := cryptos[0]; c.calls > 0 {
+					lanes := cMap(c.rep.LaneUpdates, func(l cciptypes.RMNLaneUpdate) string {
+						return cTup(cN(uint64(l.SourceChainSelector)), cPair(cN(uint64(l.MinSeqNr)), cN(uint64(l.MaxSeqNr))), tm.addr(l.OnRampAddress), tm.h32(l.MerkleRoot))
+					})
+					rep := cTup(tm.h32(c.rep.ReportVersionDigest), cN(uint64(c.rep.DestChainSelector)), tm.addr(c.rep.RmnRemoteContractAddress),
+						tm.addr(c.rep.OfframpAddress), tm.h32(c.rep.RmnHomeContractConfigDigest), lanes)
+					call = cSome(cTup(cMap(c.sigs, tm.sig), rep, cMap(c.addrs, func(a cciptypes.UnknownAddress) string { return tm.addr(a) })))
+					if c.calls > 1 {
+						codes[0] = 2
+					}
+				}
+				outT := cNone()
+				if len(validAos) >= 3 { // libocr calls Outcome on a quorum (2F+1) of valid observations only
+					co, cerr = getConsensusObservation(mocks.NullLogger, 1, vC05KnownDest, validAos)
+					func() {
+						defer func() {
+							if rec := recover(); rec != nil {
+								outT = cSome(cApp("mkOutcome", cZ(-77), "[]", "[]", "[]", cN(0), "[]", cPair(cN(0), cN(0))))
+							}
+						}()
+						o2, err := procs[0].Outcome(ctx, prev, q, validAos)
+						if err != nil {
+							panic(err)
+						}
+						out, haveOut = vC03Wire(o2), true
+						outT = cSome(tm.outcome(out))
+					}()
+				}
+				restOut = cSome(cTup(cTup(cNi(codes[0]), call, obsT[0], cBool(alike)), cList(validT), outT))
+			}
+			// ---- input term
+			cfg := prev.RMNRemoteCfg
+			detail := cApp("mkDetail",
+				cMap(cfg.Signers, func(s rmntypes.RemoteSignerInfo) string { return tm.addr(s.OnchainPublicKey) }),
+				tm.addr(cfg.ContractAddress), tm.h32(cfg.ConfigDigest), tm.h32(cfg.RmnReportVersion))
+			offT := cSome(tm.addr(offAddr))
+			if offErr {
+				offT = cNone()
+			}
+			var onrL, ansL []string
+			for _, k := range sources {
+				if !onAddrErr[k] {
+					onrL = append(onrL, cPair(cN(uint64(k)), tm.addr(onAddr(k))))
+				}
+			}
+			type triple struct{ a, b, c uint64 }
+			var tbl []triple
+			seenT := map[[2]uint64]bool{}
+			seenK := map[cciptypes.ChainSelector]bool{}
+			for _, cr := range prev.RangesSelectedForReport {
+				if seenK[cr.ChainSel] {
+					continue
+				}
+				seenK[cr.ChainSel] = true
+				ms, _ := rd.MsgsFn(cr.ChainSel, cr.SeqNumRange)
+				ansL = append(ansL, cPair(cN(uint64(cr.ChainSel)), cSome(cMap(ms, func(m cciptypes.Message) string {
+					return cTup(cN(uint64(m.Header.SequenceNumber)), cN(uint64(m.Header.SourceChainSelector)), cSome(cN(hid(m.Header.MessageID))))
+				}))))
+				var layer [][32]byte
+				for _, m := range ms {
+					layer = append(layer, m.Header.MessageID)
+				}
+				for len(layer) > 1 {
+					if len(layer)%2 == 1 {
+						layer = append(append([][32]byte{}, layer...), keccak.ZeroHash())
+					}
+					var next [][32]byte
+					for j := 0; j < len(layer); j += 2 {
+						c := keccak.HashInternal(layer[j], layer[j+1])
+						key := [2]uint64{hid(layer[j]), hid(layer[j+1])}
+						if !seenT[key] {
+							seenT[key] = true
+							tbl = append(tbl, triple{key[0], key[1], hid(c)})
+						}
+						next = append(next, c)
+					}
+					layer = next
+				}
+			}
+			supT := cSome(cList([]string{cN(uint64(vC05KnownDest)), cN(1), cN(2), cN(3)}))
+			rootsSide := cTup(supT, cList(ansL), cN(zeroID), cMap(tbl, func(x triple) string { return cPair(cPair(cN(x.a), cN(x.b)), cN(x.c)) }))
+			var wonL, woffL []string
+			for _, k := range sources {
+				wonL = append(wonL, cPair(cN(uint64(k)), cN(on[k])))
+				woffL = append(woffL, cPair(cN(uint64(k)), cN(off[k])))
+			}
+			input := cTup(cBool(enabled), cN(max), cN(tree), tm.outcome(prev), detail, cN(uint64(vC05KnownDest)), offT, cList(onrL),
+				leadTerm, cBool(ans), rootsSide, cList(wonL), cList(woffL), tm.cfg(wcfg), cBool(true), tm.cons(co, cerr))
+			cls := map[State]string{SelectingRangesForReport: "selecting", BuildingReport: "building", WaitingForReportTransmission: "waiting"}[st] + "/" + lcls
+			if !enabled {
+				cls = "rmn-off/" + cls
+			}
+			sink.Emit("C05_chain", cls, enabled && st == BuildingReport, cPair(input, cPair(leadOut, restOut)),
+				map[string]any{"enabled": enabled, "state": int(st), "leader": lcls, "cryptoOK": ans, "round": rd0, "haveOutcome": haveOut,
+					"roots_out": len(out.RootsToReport), "sigs_out": len(out.RMNReportSignatures), "type_out": int(out.OutcomeType)})
+			if !haveOut {
+				break // no quorum of valid observations / leader failed: libocr would start another round on the same outcome
+			}
+			// the report is transmitted some time after it was generated
+			if out.OutcomeType == ReportGenerated || (prev.OutcomeType == ReportGenerated && r.Bool()) || out.OutcomeType == ReportInFlight {
+				if r.Bool() {
+					src := out.RootsToReport
+					for _, rt := range src {
+						off[rt.ChainSel] = uint64(rt.SeqNumsRange.End()) + 1
+					}
+				}
+			}
+			prev = out
+		}
 	}
 }
